@@ -7,7 +7,11 @@
    Theorem: the Guarded instance, hence every count run on it, does not depend on [stale]. *)
 From Coq Require Import ZArith List Bool String.
 From Droop Require Import Model.KernelBase Model.Arith Model.Prims Model.Election Proofs.ArithEq Proofs.CountEq.
+From Droop Require Import Gen.GuardedKernels Model.Options Model.ClassState Proofs.OptionsProofs Proofs.ClassStateProofs.
+Import ListNotations.
 Open Scope Z_scope.
+Open Scope list_scope.
+
 
 Theorem C20_guarded_instance_history_independent : forall p g d s s', Guarded p g d s = Guarded p g d s'.
 Proof. exact guarded_stale_irrelevant. Qed.
@@ -28,3 +32,101 @@ Example C20_concrete :
   str (Guarded 2 2 4 0) 12345 = "1.23_45"%string /\ str (Guarded 2 2 4 999) 12345 = "1.23_45"%string /\
   str (Guarded 2 2 2 0) 12345 = "1.23"%string /\ str (Guarded 2 2 2 999) 12345 = "1.23"%string.
 Proof. vm_compute. repeat split. Qed.
+
+(* ------------------------------------------------------------------------------------------------
+   Where the arguments of those instances come from: Election construction on an explicit class state.
+   [gstate] = every class attribute some initialize() assigns (None = still the class body's value);
+   [election_setup] = Election.__init__ from `rulename = options.getopt('rule')` to
+   `self.V = values.ArithmeticClass(self.options)`; [reads c g f] = attribute f may be read by an
+   election whose arithmetic class is c (Model/ClassState.v).  Tied to the code by the history runs of
+   harness/props/c20_options.py. *)
+
+(* constructing an election on any two earlier class states g, g': the same outcome (the same
+   exception, or the same rule / rule attributes / arithmetic class), the same option store, and the
+   same value of every class attribute that can be read afterwards (stale attributes -- Guarded.__scaledg
+   when display <= precision, Guarded.epsilon when guard > 0, the other classes' attributes -- may differ
+   but are not read; which attributes are read is itself the same on both sides) *)
+Theorem C20_construction_history_independent : forall o g g',
+  let r := election_setup (o, g) in let r' := election_setup (o, g') in
+  fst r = fst r' /\ fst (snd r) = fst (snd r') /\
+  (forall k p c, fst r = Ok (k, p, c) ->
+     forall f, reads c (snd (snd r)) f = true ->
+               snd (snd r) f = snd (snd r') f /\ reads c (snd (snd r')) f = true).
+Proof. exact setup_history_independent. Qed.
+Print Assumptions C20_construction_history_independent.
+
+(* in particular after any two histories of earlier elections (each constructed on its own option
+   store; failed constructions leave their partial assignments behind), starting from a fresh interpreter;
+   h' = [] is the fresh process, h = h' ++ [o] is "the same election again" *)
+Theorem C20_after_any_histories : forall o h h',
+  let r := election_setup (o, run_history h g_init) in let r' := election_setup (o, run_history h' g_init) in
+  fst r = fst r' /\ fst (snd r) = fst (snd r') /\
+  (forall k p c, fst r = Ok (k, p, c) ->
+     forall f, reads c (snd (snd r)) f = true ->
+               snd (snd r) f = snd (snd r') f /\ reads c (snd (snd r')) f = true).
+Proof. exact run_history_independent. Qed.
+Print Assumptions C20_after_any_histories.
+
+(* the same statement for each initialize() classmethod on its own *)
+Theorem C20_initialize_history_independent : forall (c : acls) o g g',
+  let m := match c with AFixed => initialize_fixed | AGuarded => initialize_guarded | ARational => initialize_rational end in
+  let r := run_w m (o, g) in let r' := run_w m (o, g') in
+  fst r = fst r' /\ fst (snd r) = fst (snd r') /\
+  (fst r = Ok tt -> forall f, reads c (snd (snd r)) f = true -> snd (snd r) f = snd (snd r') f).
+Proof. exact initialize_history_independent. Qed.
+Print Assumptions C20_initialize_history_independent.
+
+(* a successful construction leaves exactly the class record the count model's arithmetic is built from
+   (Arith.mk_fixed_cls / mk_guarded_cls); the only trace of the past is the stale __scaledg ... *)
+Theorem C20_state_after_guarded : forall o o' l g, initialize_guarded o = (Ok tt, o', l) ->
+  exists p gd d, 0 <= p /\ 0 <= gd /\ 0 <= d /\
+    let s := apply_log l g in
+    guarded_cls_of s = mk_guarded_cls p gd d (getZ g GdScaledg) /\
+    getS s GdInfo = guarded_info p gd (if p + gd <? d then p + gd else d) /\
+    getB s GdExact = negb (gd =? 0) /\ getB s GdQuasiExact = negb (gd =? 0) /\
+    (gd = 0 -> getZ s GdEpsilon = 1) /\ getZ s GdMaxDiff = 0 /\ getZ s GdMinDiff = 10 ^ (p + gd) * 100.
+Proof. exact guarded_state_after. Qed.
+Print Assumptions C20_state_after_guarded.
+
+Theorem C20_state_after_fixed : forall o o' l g, initialize_fixed o = (Ok tt, o', l) ->
+  exists name p d, 0 <= p /\ 0 <= d <= p /\
+    let s := apply_log l g in
+    fixed_cls_of s = mk_fixed_cls p d /\ getS s FxName = name /\ getZ s FxEpsilon = 1 /\
+    (name = (if (p =? 0)%Z then "integer"%string else "fixed"%string) -> getS s FxInfo = fixed_info p d).
+Proof. exact fixed_state_after. Qed.
+Print Assumptions C20_state_after_fixed.
+
+(* ... and the only trace of the past, the stale __scaledg, is irrelevant: the arithmetic instance and
+   printing by the theorems at the top of this file, and what the renderers read besides (name, info,
+   report()) by this one *)
+Theorem C20_guarded_meta_history_independent : forall p g d s s', GuardedMeta p g d s = GuardedMeta p g d s'.
+Proof. exact guarded_meta_stale. Qed.
+Print Assumptions C20_guarded_meta_history_independent.
+
+(* non-vacuity: an earlier Guarded election with display > precision and guard = 0 leaves __scaledg and
+   epsilon behind; a later Guarded election with display <= precision and guard > 0 keeps both stale
+   values, reads neither, and agrees with the fresh process on everything it reads *)
+Definition ex_hist : store :=
+  election_options (dict_of_list [("rule", VStr "wigm"); ("arithmetic", VStr "guarded"); ("precision", VInt 2);
+                                  ("guard", VInt 0); ("display", VInt 2)]%string) [].
+Definition ex_hist2 : store :=
+  election_options (dict_of_list [("rule", VStr "meek"); ("arithmetic", VStr "guarded"); ("precision", VInt 1);
+                                  ("guard", VInt 3); ("display", VInt 3)]%string) [].
+Definition ex_test : store :=
+  election_options (dict_of_list [("rule", VStr "wigm"); ("arithmetic", VStr "guarded"); ("precision", VInt 4);
+                                  ("guard", VInt 2); ("display", VInt 3)]%string) [].
+Example C20_nonvacuous :
+  let g1 := run_history [ex_hist; ex_hist2] g_init in
+  let r := election_setup (ex_test, g1) in let r0 := election_setup (ex_test, g_init) in
+  g1 GdScaledg = Some (FZ 100) /\ g1 GdEpsilon = Some (FZ 1) /\
+  snd (snd r) GdScaledg = Some (FZ 100) /\ snd (snd r0) GdScaledg = None /\
+  snd (snd r) GdEpsilon = Some (FZ 1) /\ snd (snd r0) GdEpsilon = None /\
+  reads AGuarded (snd (snd r)) GdScaledg = false /\ reads AGuarded (snd (snd r)) GdEpsilon = false /\
+  fst r = fst r0 /\
+  forallb (fun f => negb (reads AGuarded (snd (snd r)) f) ||
+                    match snd (snd r) f, snd (snd r0) f with
+                    | Some (FZ a), Some (FZ b) => a =? b
+                    | Some (FS a), Some (FS b) => String.eqb a b
+                    | Some (FB a), Some (FB b) => Bool.eqb a b
+                    | _, _ => false end) all_fields = true.
+Proof. vm_compute. repeat split; reflexivity. Qed.
